@@ -24,7 +24,15 @@ MAXA = {"t1": 2, "t13": 3, "t0": 2, "t303": 4, "none": 1, "only-boom": 3, "pk3":
 PATTERNS = {"ok": 0, "fail1": 1, "fail2": 2, "fail3": 3, "always": 99, "bam": "bam"}
 
 
-def step(sn, pn):
+def step(sn, pn, sem=None):
+    st = _step(sn, pn)
+    if sem:
+        st["body"]["sem"] = sem
+        st["catch"] = ["CallableRuntimeError", "StepInterruptedError"]
+    return st
+
+
+def _step(sn, pn):
     if pn == "bam":
         fn = {"raise": "Bam", "msg": "not-retryable"}
     elif pn == "always":
@@ -42,6 +50,11 @@ def programs():
         for pn in PATTERNS:
             meta = {"strat": sn, "pattern": pn, "max_attempts": MAXA[sn]}
             out.append({"name": f"step[{sn}/{pn}]", "meta": meta, "seq": [step(sn, pn), {"k": "step", "fn": {"ret": "after"}}]})
+    # at-most-once steps: an interrupted attempt consults the strategy with StepInterruptedError
+    for sn, pn in (("t13", "fail2"), ("t1", "fail1"), ("t303", "fail3"), ("t13", "always"), ("pk3", "fail2")):
+        meta = {"strat": sn, "pattern": pn, "max_attempts": MAXA[sn], "most": True}
+        out.append({"name": f"most-step[{sn}/{pn}]", "meta": meta,
+                    "seq": [step(sn, pn, sem="most"), {"k": "step", "fn": {"ret": "after"}}]})
     for sn, pn in (("t13", "fail2"), ("t1", "always"), ("t0", "fail1")):
         meta = {"strat": sn, "pattern": pn, "max_attempts": MAXA[sn], "path": [1, "b0", 1]}
         out.append({"name": f"par[step[{sn}/{pn}],S]", "meta": meta,
@@ -99,7 +112,9 @@ def judge(d, _=None):
             failures = PATTERNS[pn]
             expected = min(failures + 1, maxa)
         n_done = len(done)
-        if not crashes:
+        if m.get("most") and crashes:
+            pass
+        elif not crashes:
             if n_done != expected:
                 V(out, "C12", "function-ran-wrong-number-of-times",
                   f"{d.program['name']}: function ran {n_done} times, expected min(failures+1, max_attempts) = {expected}",
@@ -233,6 +248,9 @@ def space(tier):
     for sn, pn in (("t13", "fail2"), ("t1", "always"), ("t303", "fail3")):
         p = [x for x in programs() if x["name"] == f"step[{sn}/{pn}]"][0]
         units.append(({"program": p, "cfg": {"env_kinds": ["crash"]}}, {"crash": 2, "total": 2}, cap))
+    for p in programs():
+        if p["meta"].get("most"):
+            units.append(({"program": p, "cfg": {"env_kinds": ["crash"]}}, {"crash": 2, "total": 2}, cap))
     return units
 
 
@@ -251,7 +269,7 @@ def run(ctx):
     cov["packaged_strategy_calls"] = n
     cov["bounds"] = ("(i) one step (top level, and inside a parallel branch) x 8 strategies (decision tables with delays 0/1/3, "
                      "error-class filter, preset none, two packaged configs) x 6 failure patterns (ok, fail 1/2/3 times, always, "
-                     "non-retryable class) x every crash point (pairs in thorough and on three programs in quick); "
+                     "non-retryable class), five at-most-once variants (pairs of crash points) x every crash point (pairs in thorough and on three programs in quick); "
                      "(ii) create_retry_strategy over max_attempts 1..6 x initial {1,2,5,100} x max {1,10,300} x rate "
                      "{1,1.5,2,3} x jitter {NONE,HALF,FULL} x every attempt 1..max+1 x 4 (quick) / 8 (thorough) values of "
                      "random.random, error filters, the five presets")
